@@ -192,14 +192,14 @@ namespace occa {
           //    ++IT (or IT++)
           // -> BLOCK_IT += TILE
           blockUpdate = (
-            blockIterator += tileSizeExpr
+            blockIterator += expr::parens(tileSizeExpr)
           );
         }
         else if (opType & operatorType::decrement) {
           //    --IT (or IT--)
           // -> BLOCK_IT -= TILE
           blockUpdate = (
-            blockIterator -= tileSizeExpr
+            blockIterator -= expr::parens(tileSizeExpr)
           );
         }
         else if (opType & (operatorType::addEq | operatorType::subEq)) {
